@@ -392,4 +392,46 @@ theorem fromStr128_literal_commas (p : Nat) (sg : Sign) (ip : Str) (fo : Option 
   rw [fromStr128_congr p _ t (litText sg ip fo) hne (litText_ne_nil sg ip fo hl) (by rw [ht, litText_noComma sg ip fo hl])]
   exact fromStr128_literal p sg ip fo hl hfit
 
+/-! ### dispatch: plain literals never reach the float detour -/
+theorem fromStr128_exp_iff (p : Nat) (m : Int) (s : Str) :
+    fromStr128 p m s = .exp ↔ s ≠ [] ∧ hasExp (stripCommas s) = true := by
+  unfold fromStr128
+  split
+  · rename_i h; simp [h]
+  · rename_i h
+    simp only
+    split
+    · rename_i he; simp [h, he]
+    · rename_i he
+      have : ¬ (hasExp (stripCommas s) = true) := he
+      simp only [h, ne_eq, not_false_eq_true, true_and, this, iff_false]
+      split
+      · simp
+      · unfold tail128
+        split
+        · simp
+        · split <;> simp
+
+theorem litText_noExp (sg : Sign) (ip : Str) (fo : Option Str) (hl : IsLiteral sg ip fo) :
+    hasExp (litText sg ip fo) = false := by
+  apply hasExp_false
+  intro c hc
+  unfold litText at hc
+  rcases List.mem_append.mp hc with h | h
+  · have := clean_ne _ (sign_ip_clean sg ip hl.ipd) c h; exact ⟨this.2.2.1, this.2.2.2⟩
+  · cases fo with
+    | none => simp at h
+    | some fp =>
+      rcases List.mem_cons.mp h with h' | h'
+      · omega
+      · have := isDigit_bounds c (hl.fpd fp rfl c h'); omega
+
+/-- no plain literal (with or without separators), in any configuration, is dispatched to the `ParseFloat` branch -/
+theorem literal_not_exp (p : Nat) (m : Int) (sg : Sign) (ip : Str) (fo : Option Str) (hl : IsLiteral sg ip fo)
+    (t : Str) (ht : stripCommas t = litText sg ip fo) : fromStr64 p m t ≠ .exp ∧ fromStr128 p m t ≠ .exp := by
+  have h : ¬ (hasExp (stripCommas t) = true) := by rw [ht, litText_noExp sg ip fo hl]; simp
+  constructor
+  · intro he; exact h ((fromStr64_exp_iff p m t).mp he).2
+  · intro he; exact h ((fromStr128_exp_iff p m t).mp he).2
+
 end FixedText
